@@ -574,6 +574,26 @@ def gen_e2e_model(r):
         m.lcon(e)
     if r.chance(1, 3):
         m.con(None, F(r.rint(2, 8)), lin={}, nl=num(2))
-    if r.chance(1, 2):
+    # nonlinear functions: integer powers anywhere (exact reference semantics); transcendental functions only in the
+    # objective, so that NL feasibility (decided exactly) does not depend on them
+    cfg = {'accept': 'ALL', 'options': []}
+    if r.chance(1, 4):
+        k = r.choice([2, 3, 2, 4, -1, -2])
+        m.lcon((r.choice(['ge', 'le', 'lt', 'gt', 'ne']), ('pow', v(), ('n', F(k))), ('n', F(r.rint(0, 9)))))
+    if r.chance(1, 3):
+        f = r.choice(['exp', 'log', 'sin', 'cos', 'tan', 'atan', 'sinh', 'cosh', 'tanh', 'asinh', 'log10', 'sqrt', 'asin', 'acos',
+                      'acosh', 'atanh', 'cpow'])
+        arg = r.choice([v(), ('+', v(), ('n', F(1))), ('*', ('n', F(1, 2)), v()), ('-', ('n', F(0)), v())])
+        e = ('cpow', ('n', F(r.choice([2, 3]))), arg) if f == 'cpow' else (f, arg)
+        if r.chance(1, 2):
+            e = ('+', e, num(1))
+        m.obj(r.choice(['min', 'max']), lin={}, nl=e)
+        if r.chance(1, 2):
+            cfg['accept'] = 'LinConRange,LinConLE,LinConEQ,LinConGE,PLConstraint' + r.choice(['', ',AbsConstraint,MaxConstraint,MinConstraint'])
+    elif r.chance(1, 2):
         m.obj('min', lin={0: 1}, nl=num(1) if r.chance(1, 2) else None)
+    for o in ('cvt:pre:eqresult=0', 'cvt:pre:eqbinary=0', 'cvt:pre:unnest=0', 'cvt:pre:all=0'):
+        if r.chance(1, 10):
+            cfg['options'].append(o)
+    m.c06cfg = cfg
     return m, grids
